@@ -134,14 +134,26 @@ def audit(pid, tier='quick'):
                     rel = os.path.relpath(os.path.join(root, fn), lean.LEAN_DIR)[:-5]
                     mods.append(rel.replace(os.sep, '.'))
         t0 = time.time()
-        try:
-            q = subprocess.run(['lake', 'env', 'leanchecker'] + sorted(mods), cwd=lean.LEAN_DIR, stdout=subprocess.PIPE,
-                               stderr=subprocess.STDOUT, text=True, timeout=3000)
-            res['leanchecker'] = {'modules': len(mods), 'exit': q.returncode, 'seconds': round(time.time() - t0, 1)}
-            if q.returncode != 0:
-                res['problems'].append('leanchecker rejected the compiled modules: ' + q.stdout[-600:])
-        except subprocess.TimeoutExpired:
-            res['leanchecker'] = {'modules': len(mods), 'exit': 'timeout'}
+        cache = os.path.join(lean.LEAN_DIR, '.lake', 'leanchecker.ok')
+        with lean.build_lock():          # nobody rebuilds the .olean files while they are being re-checked
+            digest = lean.olean_digest()
+            cached = os.path.exists(cache) and open(cache).read().strip() == digest
+            if cached:
+                # the very same compiled files were already accepted by leanchecker (digest over every .olean)
+                res['leanchecker'] = {'modules': len(mods), 'exit': 0, 'seconds': 0.0, 'cached_for_olean_digest': digest[:16]}
+            else:
+                try:
+                    q = subprocess.run(['lake', 'env', 'leanchecker'] + sorted(mods), cwd=lean.LEAN_DIR, stdout=subprocess.PIPE,
+                                       stderr=subprocess.STDOUT, text=True, timeout=3000)
+                    res['leanchecker'] = {'modules': len(mods), 'exit': q.returncode, 'seconds': round(time.time() - t0, 1),
+                                          'olean_digest': digest[:16]}
+                    if q.returncode != 0:
+                        res['problems'].append('leanchecker rejected the compiled modules: ' + q.stdout[-600:])
+                    else:
+                        with open(cache, 'w') as f:
+                            f.write(digest)
+                except subprocess.TimeoutExpired:
+                    res['leanchecker'] = {'modules': len(mods), 'exit': 'timeout'}
     res['ok'] = not res['problems'] and res['discharged'] == res['obligations']
     return res
 
